@@ -11,7 +11,7 @@ TABLE.update({
     (SR_FMT, 'arith', 'Sub(String::len(ToString::to_string(self.rune)),1)'): {
         'reason': 'evaluated inside the loop over the chars of that very string, so the string has at least one char', 'range': (0, ISIZE_MAX - 1),
         'requires': [r"^discr\(Iterator::next\(.*str::chars\(.*\)\) in \['1'\]$"]},
-    (SR_FMT, 'shift', 'Shl(1,Iterator::next(IntoIterator::into_iter(Iterator::enumerate(str::chars(tmp)))).v:Some.0.0)'): {
+    (SR_FMT, 'shift', 'Shl(1,Iterator::next(IntoIterator::into_iter(Iterator::enumerate(str::chars(Deref::deref(ToString::to_string(…)))))).v:Some.0.0)'): {
         'reason': 'i < rune.len() - 1 (the guard) and a rune name has at most 28 letters (u128::MAX prints as the 28-letter BCGDENLQRQWDSLRUGSNLBTMFIJAV), so i <= 26 < 32',
         'requires': [r'^Lt\(Iterator::next\(.*\)\.v:Some\.0\.0,Sub\(String::len\(ToString::to_string\(self\.rune\)\),1\)\)==True$']},
 })
